@@ -424,6 +424,16 @@ func sliceSeq(f *ssa.Function, v ssa.Value, isRecv, isArg func(ssa.Value) bool, 
 				}
 				return nil
 			}
+			// the offset of the second copy: len(first source), or the count the first copy returned
+			offOf := func(v ssa.Value) ssa.Value {
+				if o := lenOf(v); o != nil {
+					return o
+				}
+				if cc, ok := v.(*ssa.Call); ok && builtinName(&cc.Call) == "copy" && cc.Call.Args[0] == ssa.Value(x) {
+					return cc.Call.Args[1]
+				}
+				return nil
+			}
 			a, b := lenOf(sum.X), lenOf(sum.Y)
 			if a != nil && b != nil {
 				var first, second ssa.Value
@@ -446,7 +456,7 @@ func sliceSeq(f *ssa.Function, v ssa.Value, isRecv, isArg func(ssa.Value) bool, 
 							for _, r2 := range referrersOf(c) {
 								if cc, ok := r2.(*ssa.Call); ok && builtinName(&cc.Call) == "copy" && cc.Call.Args[0] == ssa.Value(c) {
 									// offset must be len(first source)
-									if off := lenOf(c.Low); off != nil {
+									if off := offOf(c.Low); off != nil {
 										second = cc.Call.Args[1]
 										_ = off
 									}
@@ -459,7 +469,7 @@ func sliceSeq(f *ssa.Function, v ssa.Value, isRecv, isArg func(ssa.Value) bool, 
 					var offOK bool
 					for _, ref := range referrersOf(x) {
 						if sl, ok := ref.(*ssa.Slice); ok && sl.Low != nil {
-							if off := lenOf(sl.Low); off != nil && sameValue(off, first) {
+							if off := offOf(sl.Low); off != nil && sameValue(off, first) {
 								offOK = true
 							}
 						}
